@@ -50,10 +50,10 @@ def check(pid, tier, seed):
         ins = open(fin).read().splitlines()
         impl = open(fimpl).read().splitlines()
         model = open(fmodel).read().splitlines() if os.path.exists(fmodel) else []
-        hist, running = [], False
+        hist, running, prev = [], False, {}
         for i, a in enumerate(impl):
             if a == "new":
-                hist, running = [], False
+                hist, running, prev = [], False, {}
                 continue
             hist.append(ins[i])
             total += 1
@@ -66,12 +66,16 @@ def check(pid, tier, seed):
             ev0 = ins[i].split()[0]
             if ev0 == "shutdown":
                 running = False
-            elif ev0 in ("start", "tick") and st.get("browsing") == "1":
+            elif ev0 in ("start", "tick", "tickflaky") and st.get("browsing") == "1":
                 running = True
+            # services resolved afterwards are reported again: a browse result the daemon emitted (it held a browser) reaches the manager
+            if ev0 == "service" and prev.get("browsing") == "1" and st.get("rep") == prev.get("rep"):
+                bad.append({"seed": s, "history": list(hist), "state": a, "why": "the daemon held a browser for the provider and emitted a browse result; it was not taken / not reported to the manager"})
+            prev = st
             # the property, evaluated on the implementation's own state
             if st.get("late", "0") != "0":
                 bad.append({"seed": s, "history": list(hist), "state": a, "why": "a reconnect attempt touched the daemon after a manual shutdown"})
-            elif not running and ev0 in ("shutdown", "tick", "up", "down") and "shutdown" in [h.split()[0] for h in hist] and \
+            elif not running and ev0 in ("shutdown", "tick", "tickflaky", "up", "down") and "shutdown" in [h.split()[0] for h in hist] and \
                     (st.get("browsing") == "1" or st.get("published") != "-") and "start" not in [h.split()[0] for h in hist[len(hist) - list(reversed([h.split()[0] for h in hist])).index("shutdown"):]]:
                 bad.append({"seed": s, "history": list(hist), "state": a, "why": "browsing or announcing after a manual shutdown"})
             elif running and st.get("up") == "1" and st.get("loops") == "0" and (st.get("browsing") != "1" or st.get("published") != st.get("wanted")):
